@@ -99,6 +99,9 @@ def check_case(lines, obs, want=("C11", "C12")):
                 bad = [k for k in set(seen) | set(expected) if seen.get(k) != expected.get(k)][:3]
                 return fail(ln, "every entry under its true labels" + (" (sparse: exactly the non-zero entries)" if t[4] == "1" else ""),
                             {k: str(expected.get(k)) for k in bad}, {k: str(seen.get(k)) for k in bad})
+        elif ln == "note zero_dim_import_refuses_faulty_data" and ob != "ok" and "C12" in want:
+            return fail(ln, "an empty value or a duplicated entry is refused under the default flags (here: an array without dimensions), "
+                            "and nothing is altered by the refused call", "refused", ob)
         elif ln == "note infinite_value_round_trip" and ob != "ok" and "C11" in want:
             return fail(ln, "importing an exported frame returns the identical array (one entry is infinite)", "the array", ob)
         elif t[0] == "note" and len(t) > 1 and t[1] == "layout":
